@@ -1,4 +1,5 @@
 import CasbinModel.Lemmas.Utf8
+import CasbinModel.Lemmas.Segments
 /-!
 # C15 — Built-in path matchers implement their documented patterns
 
@@ -8,14 +9,18 @@ no `*`); `keyGet k p` is the text of `k` after that prefix when it is a proper p
 empty.  This goes through the fact that UTF-8 is a prefix code (`Lemmas/Utf8.lean`), since
 the crate compares byte prefixes at a byte offset taken from the pattern.
 
-For the regex-based matchers (`keyMatch2`–`5`, `keyGet2/3`) the model is the crate's textual
-rewriting followed by a matcher for the regex fragment those rewritings produce; the
-fragment matcher is validated against the `regex` crate and the nine functions against an
-independent segment-wise matcher by the correspondence run (all patterns of the grammar up
-to a size bound).  The general theorem "rewriting ∘ fragment matching = segment-wise
-matching for every pattern of the grammar" is stated below for the compiled item list
-(`matchItems_lit`, `matchItems_seg`, `matchItems_rest`: one lemma per segment kind);
-the string-rewriting half is covered by examples and the differential run  (*partial*).
+**keyMatch2 is proved for every pattern of the grammar and every key** (`keyMatch2_spec`):
+for a pattern made of `/`-separated segments — literal text (no regex metacharacter, `/`, `:`),
+`:name`, or `*` at any position — the crate's pipeline (replace `/*` by `/.*`, replace `:[^/]*`
+by `[^/]+`, anchor, compile, leftmost-first backtracking match) decides exactly `segMatch`, the
+segment-wise meaning written without regular expressions (`Lemmas/Segments.lean`: rewriting
+lemmas, compilation lemma, matching lemma).  `keyMatch3` and `keyMatch5` follow the same way
+(`keyMatch3_spec`, `keyMatch5_spec`).
+
+For `keyMatch4` and the getters `keyGet2/3` (captures) the model is the same pipeline; they
+are validated against the `regex` crate and against the independent segment-wise matcher
+by the correspondence run (all patterns of the grammar up to a size bound, random beyond)
+(*partial*).
 -/
 namespace Casbin.C15
 open Casbin
@@ -131,6 +136,54 @@ theorem matchItems_rest_end (k : Str) (h : k.all (· ≠ '\n') = true) : (matchI
         · exact ih h1
   simp only [matchItems]
   exact hf _ (by simpa using hs k h)
+
+/-! ### The RESTful matchers on the whole grammar -/
+
+/-- **keyMatch2 = segment-wise matching**, for every pattern of the grammar and every key -/
+theorem keyMatch2_spec (ps : List PSeg) (hok : ∀ p ∈ ps, p.Ok) (k : Str) :
+    keyMatch2 k (render2 ps) = some (segMatch ps k) := by
+  unfold keyMatch2 reMatch compileRe
+  simp only
+  rw [repl_render2 ps hok, rc_renderStar2 ps hok _ (by omega), compile_reBody ps hok _ (by omega)]
+  simp [matchItems_itemsOf]
+
+/-- **keyMatch3 = segment-wise matching** with `{name}` segments -/
+theorem keyMatch3_spec (ps : List PSeg) (hok : ∀ p ∈ ps, p.Ok) (k : Str) :
+    keyMatch3 k (render3 ps) = some (segMatch ps k) := by
+  unfold keyMatch3 reMatch compileRe
+  simp only
+  rw [repl_render3 ps hok, rbg_renderStar3 ps hok _ (by omega), compile_reBody ps hok _ (by omega)]
+  simp [matchItems_itemsOf]
+
+/-- **keyMatch5 = segment-wise matching of the key without its query string** (names non-empty and
+without `}`, as the lazy rewriting `\{[^/]+?\}` requires) -/
+theorem keyMatch5_spec (ps : List PSeg) (hok : ∀ p ∈ ps, p.Ok) (hlz : ∀ p ∈ ps, p.OkLazy) (k : Str) :
+    keyMatch5 k (render3 ps) = some (segMatch ps (k.takeWhile (· ≠ '?'))) := by
+  unfold keyMatch5 reMatch compileRe
+  simp only
+  rw [repl_render3 ps hok, rbl_renderStar3 ps hok hlz _ (by omega), compile_reBody ps hok _ (by omega)]
+  simp [matchItems_itemsOf]
+
+/-- the segment-wise meaning on concrete keys (tests of the specification itself) -/
+example : segMatch [.lit "a".toList, .named "id".toList] "/a/7".toList = true ∧
+    segMatch [.lit "a".toList, .named "id".toList] "/a/".toList = false ∧
+    segMatch [.lit "a".toList, .named "id".toList] "/a/7/x".toList = false ∧
+    segMatch [.lit "a".toList, .rest, .lit "b".toList] "/a/x/y/b".toList = true ∧
+    segMatch [.lit "a".toList, .rest, .lit "b".toList] "/a/x/y/c".toList = false ∧
+    segMatch [.lit "a".toList, .rest] "/a/".toList = true ∧
+    segMatch [.lit "a".toList, .rest] "/a".toList = false := by decide +kernel
+
+/-- non-vacuity: a pattern with all three kinds of segment, inner `*` included -/
+example : (∀ p ∈ [PSeg.lit "res".toList, .named "id".toList, .rest, .lit "é".toList], p.Ok) ∧
+    render2 [PSeg.lit "res".toList, .named "id".toList, .rest, .lit "é".toList] = "/res/:id/*/é".toList := by
+  refine ⟨?_, by decide +kernel⟩
+  intro p hp
+  simp only [List.mem_cons, List.mem_nil_iff, or_false] at hp
+  rcases hp with rfl | rfl | rfl | rfl
+  · intro c hc; revert c; decide +kernel
+  · intro c hc; revert c; decide +kernel
+  · trivial
+  · intro c hc; revert c; decide +kernel
 
 /-! ### Tests (labelled as tests): the nine functions on patterns of the grammar -/
 example : keyMatch2 "/res/7".toList "/res/:id".toList = some true := by decide +kernel
